@@ -286,7 +286,9 @@ var listTermKinds = []ltkind{
 	lsimple("list.GroupBy", refGroup, func(e *env, cb *int, l fp.List[int]) string {
 		return groupStr(list.GroupBy(l, func(v int) int { e.tick(); *cb++; return v % 2 }))
 	}),
-	lsimple("list.ToMap", refLastWins, func(e *env, cb *int, l fp.List[int]) string { return fpMapStr(list.ToMap(lpairs(l), hash.Number[int]())) }),
+	lsimple("list.ToMap", refLastWins, func(e *env, cb *int, l fp.List[int]) string {
+		return fpMapStr(list.ToMap(lpairs(l), hash.Number[int]()))
+	}),
 	lsimple("list.ToGoMap", refLastWins, func(e *env, cb *int, l fp.List[int]) string { return mapStr(list.ToGoMap(lpairs(l))) }),
 	lsimple("list.ToSet", refSet, func(e *env, cb *int, l fp.List[int]) string { return fpSetStr(list.ToSet(l, hash.Number[int]())) }),
 	lsimple("list.ToGoSet", refSet, func(e *env, cb *int, l fp.List[int]) string {
